@@ -8,13 +8,17 @@ LEAN_MODULES = ['HidVerif.Props.C12']
 THEOREMS = ['HidVerif.Props.C12.' + n for n in ('int_literal_digits', 'int_literal_value', 'underscore_not_digit', 'keywords_classified',
                                                  'keyword_flavour_rejected', 'symbol_order_irrelevant', 'symbol_longest',
                                                  'symbols_classified', 'escapes_classified', 'lex_of_layout', 'layout_independence',
-                                                 'span_exact', 'symbols_are_pieces', 'identifiers_are_pieces')]
+                                                 'span_exact', 'symbols_are_pieces', 'identifiers_are_pieces', 'decimal_literals_are_pieces',
+                                                 'prefixed_literals_are_pieces', 'string_literals_are_pieces', 'char_literals_are_pieces',
+                                                 'keywords_are_pieces', 'flavoured_names_are_pieces', 'escaped_string_literals_are_pieces',
+                                                 'simple_and_hex_escapes_complete', 'touching_symbol', 'touching_symbol_next', 'touching_word',
+                                                 'touching_decimal', 'touching_hex', 'touching_oct_bin', 'touching_quoted')]
 TRUSTED = TRUSTED_BASE + ['Hid/Lexer.lean: hand-written model of scanner.py/readers.py/lex (regex matchers written out for the pattern '
                           'strings pinned in Gen.lexPatterns); tied by the lex correspondence suite (tokens, spans, error positions)',
                           'Gen/LexTables.lean: keyword/symbol/escape tables and the Unicode classes \\d \\w \\s of the running Python']
-ASSUMPTIONS = _A + ['layout independence (v) and span exactness (vi) are proved for the lexer MODEL on sources in layout form (token texts that are '
-                    'self-delimiting before white space; shown for all symbols and identifiers); strings, characters and numbers as pieces, and '
-                    'adjacent tokens without white space, are covered by the re-layout searcher on the real lexer only',
+ASSUMPTIONS = _A + ['layout independence (v) and span exactness (vi) are proved for the lexer MODEL on sources in layout form (token texts, with or without white space between them, '
+                    'each reading as its token in front of the rest of its line; shown for all symbols, words, integer literals, strings with simple/hex escapes, plain character literals); \\u{} escapes, escaped character literals '
+                    'and non-ASCII digits are covered by the re-layout searcher on the real lexer only',
                     "CPython's re, int() and str.encode are run, not modelled (their behaviour enters through the tables and the suite)"]
 RULE = ('lex suite: generated texts (every token kind, Unicode identifiers/digits/spaces, comments, escapes, malformed literals, stray '
         'characters) through hidc.lexer and the Lean model, compared token by token with spans and error positions; re-layout: token '
